@@ -847,6 +847,7 @@ def seq_setitem(I, obj, key, v):
             if isinstance(v, (Arr, list)):
                 raise Unsupported("boolean-mask assignment of an array")
             nv = ops.cast_elem(v, obj.dtype)
+            key = ops._snap(key)
             res = Arr(obj.length, fn=lambda i: ops.ite(key.get(i), nv, old.get(i)), dtype=obj.dtype)
             if obj.concrete_len():
                 res.materialise()
